@@ -878,7 +878,7 @@ func main() {
 	}
 
 	// ---- target files with comments at known offsets
-	var tbs [9]strings.Builder
+	var tbs [10]strings.Builder
 	var comments []cm
 	cur := 0
 	addc := func(prefix, c, suffix string) {
@@ -1209,6 +1209,35 @@ func main() {
 	tbs[8].WriteString("}\n")
 	addc("", "/* fam2:zz-q-a */", "")
 
+	// file 9: a checkout with CRLF LINE ENDINGS. The carriage return in front of the newline is not a part of a line comment (the
+	// scanner drops it from Comment.Text, the comment ends in front of it), every later offset counts it. Block comments of several
+	// lines are left out here: their text has lost carriage returns INSIDE (known finding C12-crlf-comment, exercised in file 0).
+	cur = 9
+	tbs[9].WriteString("package target\r\n\r\n")
+	addc("", "// fam2:é-bb-a", "\r\n")
+	tbs[9].WriteString("func cr() {\r\n")
+	for i := 0; i < 10; i++ {
+		body := fams[rng.Intn(len(fams))] + ":" + toks[rng.Intn(len(toks))] + "-" + toks[rng.Intn(len(toks))] + "-" + toks[rng.Intn(len(toks))]
+		switch i % 3 {
+		case 0:
+			addc("\t_ = \"日本\" ", "// see "+body, "\r\n")
+		case 1:
+			addc("\t", "/* "+body+" */", "\r\n")
+		default:
+			addc("\t", "//"+body, "\r\n")
+		}
+	}
+	for i := 0; i < 24; i++ {
+		if c := classComments[rng.Intn(len(classComments))]; !strings.Contains(c, "\n") {
+			addc("\t", c, "\r\n")
+		}
+	}
+	for _, c := range []string{"// TODO(bb): x", "// GL1: drop this before the release", "// see below // AN1 later", "//AN8", "/* pre GL2 mid GL2 post */", "// S1~lo"} {
+		addc("\t", c, "\r\n")
+	}
+	tbs[9].WriteString("}\r\n")
+	addc("", "// fam1:zz-a-q", "\r\n")
+
 	fset := token.NewFileSet()
 	var targets []*target
 	for i := range tbs {
@@ -1300,7 +1329,7 @@ func main() {
 		srcs = append(srcs, t.src)
 		bases = append(bases, fset.File(t.file.Pos()).Base())
 	}
-	orders := map[int][]int{0: {0, 1, 2, 3, 4, 5, 6, 7, 8}, 15: {0, 2, 3, 1, 4, 6, 5, 8, 7}}
+	orders := map[int][]int{0: {0, 1, 2, 3, 4, 5, 6, 7, 8, 9}, 15: {0, 2, 3, 1, 4, 6, 5, 8, 9, 7}}
 	var pathOf []int
 	for i := range targets {
 		pathOf = append(pathOf, i)
